@@ -31,6 +31,16 @@ pub fn run() {
         let _ = LZ13CompressionFormat {}.decompress(&[0x13, 0, 0, 0, 0x11, 0x10, 0, 0, 0x00, 1, 2, 3]);
         // pack with an entry whose name is not terminated
         let _ = mila::fe9_arc::parse(&[0x70, 0x61, 0x63, 0x6b, 0, 1, 0, 0, 0, 0, 0, 0, 0, 0, 0, 0x18, 0, 0, 0, 0x19, 0, 0, 0, 0, 0x41]);
+        // aset / asset-binary readers on an archive that ends in the middle of a record; a UTF-16 text archive whose
+        // message has no terminator
+        let mut b = BinArchive::new(Endian::Little);
+        b.allocate_at_end(8);
+        let _ = b.write_u32(0, 0xFFFF_FFFF);
+        let _ = b.write_u32(4, 0xFFFF_FFFF);
+        let _ = mila::ASetFile::from_archive(&b);
+        let _ = mila::AssetBinary::from_archive(&b);
+        let _ = b.write_label(0, "K");
+        let _ = TextArchive::from_archive(&b, TextArchiveFormat::Unicode, Endian::Little);
         // a palette image whose second index is outside the palette
         let _ = ColorFormat::CI8.decode_indexed(&[0, 9], &[1, 2, 3, 4]);
     });
